@@ -101,6 +101,7 @@ class ObsHarness(ex.Harness):
                 k = self.n
                 self.n += 1
                 log.append(("cb", self.hname, eid))
+                s.point("in-callback")   # the callback takes time: other threads may run meanwhile
                 op = prog.get("reentrant", {}).get((self.hname, k))
                 if op is not None:
                     do_op("R" + self.hname, 0, op)
